@@ -59,6 +59,10 @@ fn main() {
         ("rec", "server") => server::rec_server(&args),
         #[cfg(feature = "std")]
         ("rec", "server-script") => server::rec_server_script(&args),
+        #[cfg(feature = "std")]
+        ("rec", "observe-script") => server::rec_observe_script(&args),
+        #[cfg(feature = "std")]
+        ("rec", "observe-server") => server::rec_observe_server(&args),
         ("rec", "wire-bytes") => wire::rec_wire_bytes(&args),
         ("rec", "wire-build") => wire::rec_wire_build(&args),
         ("rec", "wire-limit") => wire::rec_wire_limit(&args),
